@@ -5,7 +5,9 @@ from vlib import *
 RULE = ("api: names (fixed list incl. 'My Image', 'A/B', 'A#20', empty, non-ASCII; every ASCII char inside a name; seeded random regular and "
         "irregular names) through Page::add_image+draw_image and Page::add_form_xobject, document written with Document::to_bytes and re-opened "
         "with PdfReader/PdfDocument; outcome = reads back with the same XObject key (and Do operand) / rejected by the API / broken. "
-        "non-trivial = name longer than one byte; distinct by case text")
+        "pages: 2-4 page documents reusing the SAME regular name on several pages for DIFFERENT resources (images of equal size with other pixels, "
+        "other sizes, form XObjects, image/form alternating, two names exchanged): per page the decoded stream the name resolves to must be the one "
+        "registered on that page (judged in Coq). non-trivial = name longer than one byte (api), a name shared by >= 2 pages (pages); distinct by case text")
 
 BAD = set(b"\t\n\x0c\r /<>[](){}%#")
 
@@ -13,7 +15,7 @@ BAD = set(b"\t\n\x0c\r /<>[](){}%#")
 def classify(case, code):
     """known class: an entry point without the validation gate (images) given a name containing white space,
     a delimiter or '#', and the model predicts exactly the observed breakage (bit 1 clear)"""
-    if not case or code < 0 or (code & 1):
+    if not case or code < 0 or (code & 1) or "pages" in case:
         return None
     name = bytes.fromhex(case.get("name", ""))
     if case.get("entry") == "image" and any(b in BAD for b in name):
@@ -29,4 +31,4 @@ def run(r):
             r.known.setdefault(f["id"], f)
     r.assumptions = ["the content-stream tokenizer (parser/content.rs) is observed, not modelled, apart from its delimiter set",
                      "entry points exercised: images (ungated) and form XObjects (gated); fonts, ExtGState, patterns, shadings, colour spaces and form fields are not exercised by this harness"]
-    return standard(r, "c30", ["theories/C30/Proofs.vo"], ["theories/C30/Model.vo", "theories/C09/Model.vo"], ["api"], classify=classify)
+    return standard(r, "c30", ["theories/C30/Proofs.vo"], ["theories/C30/Model.vo", "theories/C09/Model.vo"], ["api", "pages"], classify=classify)
